@@ -103,9 +103,9 @@ def r_seed_first(c):
     # placeholders and size parameters are made known to the generator (a user
     # name need not look reserved to clash: Named("x") data next to placeholder x)
     pp = m.func("pytato.codegen.preprocess")
-    pseeds = find(pp, """$mp.var_name_gen.add_names({$i.name for $i in InputGatherer()($outs)
+    pseeds = find(pp, """$mp.var_name_gen.add_names({$i.name for $i in InputGatherer()($$outs)
         if isinstance($i, Placeholder | SizeParam) and $i.name is not None})""") \
-        + find(pp, """$mp.var_name_gen.add_names({$i.name for $i in InputGatherer()($outs)
+        + find(pp, """$mp.var_name_gen.add_names({$i.name for $i in InputGatherer()($$outs)
         if isinstance($i, Placeholder | SizeParam) if $i.name is not None})""")
     c.check(len(pseeds) == 1, "R15-SEED-FIRST", "codegen.preprocess",
             "seeds-every-named-input", m.loc("pytato.codegen", pp),
